@@ -71,6 +71,13 @@ func (f *simFilter) PostRequest(ctx context.Context, h http.Header) error {
 	kern.Yield("filter-post")
 	if call := f.w.net.getCur(kern.CurID()); call != nil {
 		call.addFilt(FilterEvent{f.idx, "post", ""})
+		if f.idx == f.w.nfilt-1 && call.takePostFail() {
+			// injected fault: the first PostRequest to run fails once, with an error that is not an error response
+			// (cfg postfail=1). The call it hits is judged like any call under a fault; what it leaves behind in the
+			// handler is judged by the calls that follow.
+			f.w.c.Fault("post-filter-fail")
+			return errors.New("sim: post-request filter failed")
+		}
 	}
 	return nil
 }
@@ -254,6 +261,9 @@ func rpc(c *harness.Ctx) {
 				if c.Cfg["faults"] == "hostile" {
 					hostile(c, call)
 				}
+				if c.Cfg["postfail"] != "" && w.nfilt > 0 && w.filtFail < 0 && c.Choose(3, "postfail?") == 0 {
+					call.PostFail = true
+				}
 				if c.Cfg["keys"] == "adv" {
 					w.adversarialKeys(call)
 				}
@@ -394,6 +404,9 @@ func stripExpect400(call *Call, w *World) bool {
 }
 
 func anyFault(call *Call) bool {
+	if call.postFailed() {
+		return true
+	}
 	for _, e := range call.Exchanges {
 		if len(e.Faults) > 0 {
 			return true
@@ -666,6 +679,9 @@ func lastEx(call *Call) *Exchange {
 
 func faultsOf(call *Call) []string {
 	var out []string
+	if call.postFailed() {
+		out = append(out, "post-filter-fail")
+	}
 	for _, e := range call.Exchanges {
 		out = append(out, e.Faults...)
 	}
